@@ -261,3 +261,129 @@ instances! {
     c10_k5_goi_fresh => goi_never_rewritten(0);
     c10_k5_goi_after_load_remove => goi_never_rewritten(1);
 }
+
+// ---- C08.K1 — monitor signalling obligation of `Answers` ---------------------------------------------------------------
+// Proof rule for condition-variable monitors: a method that changes the monitor state in a way that can make another
+// waiter's condition true must notify before releasing the mutex. `notify` waits for an EMPTY slot, `wait_for_answer`
+// waits for a slot holding ITS token; so filling the slot and emptying it both have to signal.
+#[cfg(kani)]
+fn notifies() -> usize {
+    unsafe { crate::amv::vsync::NOTIFY_COUNT }
+}
+#[cfg(kani)]
+fn answers_signalling() {
+    let a = Answers::default();
+    let t: usize = nd();
+    // reloader publishes an answer into the empty slot
+    let n0 = notifies();
+    a.notify(t);
+    assert!(*a.current_token.lock() == Some(t), "C08 the answer slot holds the published token");
+    assert!(notifies() > n0, "C08 publishing an answer wakes the waiting callers");
+    // the caller whose token it is consumes it
+    let n1 = notifies();
+    a.wait_for_answer(t);
+    assert!(a.current_token.lock().is_none(), "C08 the caller empties the slot for the next answer");
+    assert!(notifies() > n1, "C08 emptying the answer slot wakes the reloader thread that waits for an empty slot");
+    assert!(crate::amv::lock_counts() == (0, 0));
+}
+/// a caller must not take somebody else's answer: waiting for another token blocks (the lock stub's wait panics)
+#[cfg(kani)]
+#[kani::proof]
+#[kani::should_panic]
+#[kani::unwind(4)]
+pub(crate) fn c08_k1_wrong_token_waits() {
+    let a = Answers::default();
+    let t: usize = nd();
+    a.notify(t);
+    a.wait_for_answer(t.wrapping_add(1));
+}
+/// the reloader must not overwrite an answer that was not consumed yet
+#[cfg(kani)]
+#[kani::proof]
+#[kani::should_panic]
+#[kani::unwind(4)]
+pub(crate) fn c08_k1_full_slot_waits() {
+    let a = Answers::default();
+    a.notify(nd());
+    a.notify(nd());
+}
+#[cfg(kani)]
+instances! {
+    c08_k1_answers_signalling => answers_signalling();
+}
+
+// ---- C08.K2 — unique tokens -----------------------------------------------------------------------------------------------
+fn unique_tokens() {
+    let a = Answers::default();
+    let start: usize = nd();
+    a.next_token.store(start, Ordering::Relaxed);
+    let t1 = a.get_unique_token();
+    let t2 = a.get_unique_token();
+    let t3 = a.get_unique_token();
+    assert!(t1 == start && t1 != t2 && t2 != t3 && t1 != t3, "C08 every hot_reload request gets its own token");
+}
+instances! {
+    c08_k2_unique_tokens => unique_tokens();
+}
+
+// ---- C07.K5 / C08.K3 — HotReloader::reload sends its own token and waits for exactly that token ------------------------------
+#[cfg(kani)]
+static mut SENT_TOKEN: Option<usize> = None;
+#[cfg(kani)]
+static mut SENT_MAP: *const crate::cache::AssetMap = std::ptr::null();
+#[cfg(kani)]
+static mut WAITED_TOKEN: Option<usize> = None;
+#[cfg(kani)]
+static mut WAIT_AFTER_SEND: bool = false;
+#[cfg(kani)]
+static mut SEND_FAILS: bool = false;
+#[cfg(kani)]
+fn send_rec<T>(_this: &Sender<T>, msg: T) -> Result<(), channel::SendError<T>> {
+    unsafe {
+        if SEND_FAILS {
+            return Err(channel::SendError(msg));
+        }
+        // the only channel in this harness carries CacheMessage
+        assert!(std::mem::size_of::<T>() == std::mem::size_of::<CacheMessage>());
+        let m: &CacheMessage = &*(&msg as *const T as *const CacheMessage);
+        if let CacheMessage::Ptr(map, _rel, token) = m {
+            SENT_TOKEN = Some(*token);
+            SENT_MAP = map.as_ptr() as *const _;
+        }
+    }
+    std::mem::forget(msg);
+    Ok(())
+}
+#[cfg(kani)]
+fn wait_rec(_this: &Answers, token: usize) {
+    unsafe {
+        WAITED_TOKEN = Some(token);
+        WAIT_AFTER_SEND = SENT_TOKEN.is_some();
+    }
+}
+#[cfg(kani)]
+#[kani::proof]
+#[kani::unwind(6)]
+#[kani::stub(crossbeam_channel::Sender::send, send_rec)]
+#[kani::stub(Answers::wait_for_answer, wait_rec)]
+#[kani::stub(std::thread::available_parallelism, crate::amv::common::par1)]
+pub(crate) fn c08_k3_reload_waits_for_own_token() {
+    let r = make_reloader();
+    let start: usize = nd();
+    r.answers.next_token.store(start, Ordering::Relaxed);
+    let fails: bool = nd();
+    unsafe { SEND_FAILS = fails };
+    let map = crate::cache::amv_h::new_map();
+    r.reload(&map);
+    unsafe {
+        if fails {
+            assert!(WAITED_TOKEN.is_none(), "C08 if the reloader thread is gone hot_reload returns without waiting");
+        } else {
+            assert!(SENT_TOKEN == Some(start), "C08 the request carries a fresh token");
+            assert!(SENT_MAP == &map as *const _, "C07 the request names the caller's own map");
+            assert!(WAITED_TOKEN == SENT_TOKEN && WAIT_AFTER_SEND, "C07/C08 hot_reload blocks until the answer to ITS OWN request arrives");
+        }
+    }
+    std::mem::forget(map);
+    std::mem::forget(r);
+}
